@@ -61,8 +61,8 @@ CLAIMED = {
          "For all 497 banned sets and every project of the set (each kind written directly, inside an INCLUDEd file, inside a pasted MACRO body, inside an unpasted MACRO body, and absent): a banned kind occurs => rejected with the not-allowed error located on a directive of that kind; none occurs => the result equals the build without the option.",
          "Projects are minimal valid documents per kind plus all-kinds documents; banned sets larger than 2 are not enumerated."),
 
- "C06": ("model_checking", "stateless DFS over map-iteration orders on the real code: every `range <map>` of jsight-api-core and jsight-schema-core is rewritten by a type-directed build overlay to take its order from the explorer (deviation-bounded), plus same-process / cross-process / after-another-build repetition",
-         "For every project all executions with at most `bound` non-canonically ordered map ranges are run (all permutations for maps of up to 4 keys) and must produce identical catalog + OpenAPI bytes or an identical error tuple; each diverging execution is replayed twice; every project is also built twice in one process, in a second process, and every ordered pair of the hand-written set is built in one process.",
+ "C06": ("model_checking", "stateless DFS over map-iteration orders on the real code: every `range <map>` of jsight-api-core and jsight-schema-core is rewritten by a type-directed build overlay to take its order from the explorer (deviation-bounded), plus same-process / cross-process / after-another-build repetition, and exhaustive depth-bounded edit/build histories of a project on disk",
+         "For every project all executions with at most `bound` non-canonically ordered map ranges are run (all permutations for maps of up to 4 keys) and must produce identical catalog + OpenAPI bytes or an identical error tuple; each diverging execution is replayed twice; every project is also built twice in one process, in a second process, and every ordered pair of the hand-written set is built in one process; and over a four-file project on disk every history of at most 4 (thorough 5) operations {build, rewrite a file in place with pinned or natural mtime} is executed, every build in it compared with a build of the same contents in a directory no build has seen.",
          "Any order the explorer picks is an order the Go runtime may pick; the rewritten loop re-checks the key before each iteration (Go's semantics for entries deleted during the loop). Orders beyond the deviation bound, addresses and time are covered only by the repetition runs. Large corpus projects are capped (reported as not exhaustive)."),
 
  "C18": ("model_checking", "stateless exploration of thread interleavings of the real code under a cooperative scheduler (package sync replaced by a shim through a build overlay; preemption-bounded DFS with replay), plus a separate free-running race-detector pass",
